@@ -14,6 +14,12 @@ TRUSTED_BASE = {
 }
 
 PROPS = {
+    "C10": {
+        "tests": ["TestC10"],
+        "design_ref": "DESIGN.md §3.10",
+        "level_text": "TODO",
+        "level_note": "TODO",
+    },
     "C09": {
         "tests": ["TestC09"],
         "design_ref": "DESIGN.md §3.9",
